@@ -498,7 +498,7 @@ pub fn run(ctx: &Ctx) {
     let pool_n = if quick { 10 } else { 14 };
     let pool = alpha::sc_reduced(pool_n + 2).into_iter().skip(1).take(pool_n).collect::<Vec<_>>();
     let inits = alpha::sc_reduced(if quick { 60 } else { 400 });
-    let depth = 3;
+    let depth = if ctx.deep { 4 } else { 3 };
     let _ = quick;
     ctx.bound("machine_depth", json!(depth));
     ctx.bound("machine_pool", json!(pool.len()));
